@@ -18,7 +18,8 @@ BUDGET = {
     "quick": {"runs": 2400, "wall": 150, "chunk": 30, "minimise": 80},
     "thorough": {"runs": 150_000, "wall": 1500, "chunk": 100, "minimise": 150},
 }
-REQUIRED_PROBES = {"quick": ("short_write", "eagain", "size_above_buffer", "paced_reader", "peer_fin_mid_message"),
+REQUIRED_PROBES = {"quick": ("short_write", "eagain", "size_above_buffer", "paced_reader", "peer_fin_mid_message",
+                             "concurrent_senders"),
                    "thorough": ("short_write", "eagain", "size_above_buffer", "paced_reader", "reset_mid_message",
                                 "size_ge_1mib", "hard_error_during_send")}
 EVIDENCE = {
@@ -40,6 +41,8 @@ SCHEDS = [
     {"policy": "pct", "d": 2, "horizon": 3000, "preempt": "line"},
     {"policy": "rr", "q": 3, "preempt": "line"},
     {"policy": "random", "p": 0.2, "preempt": "sync"},
+    {"policy": "random", "p": 0.5, "preempt": "sync"},
+    {"policy": "pct", "d": 2, "horizon": 150, "preempt": "sync"},
 ]
 BUFS = [1, 7, 512, 4096, 65536, 212992]
 
@@ -66,6 +69,8 @@ def gen_plan(rng, tier, index):
         "forced_short_p": rng.choice([0, 0, 0.2, 0.6]), "eagain_p": rng.choice([0, 0, 0.1, 0.5]),
         "reset_after": None, "packet_size": rng.choice([1024, 1 << 20, 4000]),
         "latency": rng.choice([0.0, 0.0005]),
+        # protocol path only: number of application threads that send at the same time
+        "senders": rng.choice([1, 1, 2, 3]),
     }
     # keep the number of simulated send()/recv() calls per run bounded
     for s_ in sends:
@@ -203,8 +208,12 @@ def run(sim, plan):
 
     hard_errors = []   # sends during which socket.send() raised a hard error (EPIPE/ECONNRESET)
 
-    def sender():
-        for n, seed in plan["sends"]:
+    n_senders = plan.get("senders", 1) if path == "protocol" else 1
+    if n_senders > 1 and len(plan["sends"]) > 1:
+        sim.probe("concurrent_senders")
+
+    def sender(tid=0):
+        for n, seed in plan["sends"][tid::n_senders]:
             blob = random.Random(seed).randbytes(n)
             if path == "raw":
                 e0 = net.hard_errors.count("app_sender")
@@ -215,7 +224,7 @@ def run(sim, plan):
             else:
                 func = sf.SecsS07F03({"PPID": "p", "PPBODY": var.Binary(blob)})
                 ok = ep.proto.send_stream_function(func)
-                results.append((rc.enc(rc.ls(rc.a("p"), rc.b(blob))), ok))
+                results.append((rc.enc(rc.ls(rc.a("p"), rc.b(blob))), ok, tid))
 
     # active endpoints send their Select.req first (from their own select thread): it is part of the byte stream and
     # must be out before the raw sends start, send_data is not meant to be called from two threads at once
@@ -224,13 +233,24 @@ def run(sim, plan):
         if plan["pacing"] != "immediate":
             sim.wait_until(lambda: len(received) >= 14, 40)
     call = ep.call_async("sender", sender)
+    more = [ep.call_async(f"sender{t}", lambda t=t: sender(t)) for t in range(1, n_senders)]
+    if more:
+        all_calls = [call] + more
+        call = {"done": False}
+
+        def _all_done():
+            call["done"] = all(c["done"] for c in all_calls)
+            return call["done"]
+    else:
+        def _all_done():
+            return call["done"]
     total = sum(n for n, _ in plan["sends"])
     reads = total / max(1, min(plan["buf"], plan["read_size"])) + 1
     limit = 60 + total / 2000 + reads * (plan["read_gap"] + 0.7)
-    done = sim.wait_until(lambda: call["done"] or state.get("reset_done"), limit)
+    done = sim.wait_until(lambda: _all_done() or state.get("reset_done"), limit)
     if state.get("reset_done"):
         limit = 30    # after the peer reset/half-closed the link nothing is drained any more
-        done = sim.wait_until(lambda: call["done"], limit)
+        done = sim.wait_until(_all_done, limit)
     if not done and state.get("reset_done") is None:
         sim.violation("C10.R2", f"send did not complete within {limit:.0f} virtual s although the reader keeps "
                       "draining", sig="C10.R2|send-stuck")
@@ -249,6 +269,7 @@ def run(sim, plan):
     # strip HSMS control frames the protocol itself emitted (Select.req at start, Separate.req at end) and, on the
     # protocol path, unwrap data frames
     payload = bytearray()
+    frame_bodies = []
     if path == "raw":
         # the stream is: [Select.req if active] + raw blobs + [Separate.req]; control frames are 14 bytes each
         body = stream
@@ -261,6 +282,7 @@ def run(sim, plan):
         for fr in parser.frames:
             if fr.stype == 0:
                 payload.extend(fr.body)
+                frame_bodies.append(fr.body)
         if (parser.error or parser.pending) and not state.get("reset_done"):
             sim.violation("C10.R1", f"peer read a byte stream that is not a sequence of frames: error={parser.error}, "
                           f"{parser.pending} trailing bytes", sig="C10.R1|stream-corrupt")
@@ -269,7 +291,7 @@ def run(sim, plan):
         if ok_:
             sim.violation("C10.R2", f"socket.send() raised EPIPE/ECONNRESET during a {n_}-byte send_data call, which "
                           "nevertheless reported success", sig="C10.R2|error-reported-as-success")
-    ok_concat = b"".join(b for b, ok in results if ok)
+    ok_concat = b"".join(r[0] for r in results if r[1])
     # R2': whatever is reported as sent must at least have been handed to the socket completely and in order
     acc = bytes(accepted)
     if path == "raw":
@@ -282,7 +304,7 @@ def run(sim, plan):
                           sig="C10.R2|success-for-unwritten-bytes")
     if state.get("reset_done"):
         # reset batch: whatever was read must be a prefix of what the senders handed over, in order
-        all_concat = b"".join(b for b, ok in results)
+        all_concat = b"".join(r[0] for r in results)
         body = bytes(payload)
         if path == "raw" and not all_concat.startswith(body[:len(all_concat)]) and not body.startswith(all_concat):
             sim.violation("C10.R1", "after a reset the bytes read by the peer are not a prefix of the bytes sent",
@@ -293,14 +315,32 @@ def run(sim, plan):
             # trailing Separate.req (14 bytes) sent by disable()
             if len(body) >= 14 and body[-14:-10] == b"\x00\x00\x00\x0a" and body[-5] == rc.SEPARATE_REQ:
                 body = body[:-14]
-        if body != ok_concat:
+        if n_senders > 1:
+            # several senders: the order between threads is free, each thread's own order is kept, nothing is lost,
+            # duplicated or torn
+            import collections
+            want_c = collections.Counter(r[0] for r in results if r[1])
+            got_c = collections.Counter(frame_bodies)
+            if want_c != got_c:
+                lost = sum((want_c - got_c).values())
+                extra = sum((got_c - want_c).values())
+                sim.violation("C10.R1", f"{n_senders} threads sent {sum(want_c.values())} messages successfully; the peer "
+                              f"read {sum(got_c.values())} data frames, {lost} of the sent ones missing or altered, "
+                              f"{extra} unexpected", sig="C10.R1|concurrent-senders-" + ("lost" if lost else "extra"))
+            for t in range(n_senders):
+                mine = [r[0] for r in results if r[1] and r[2] == t]
+                it = iter(frame_bodies)
+                if not all(any(b == x for x in it) for b in mine):
+                    sim.violation("C10.R1", f"messages of sender thread {t} arrived in a different order than sent",
+                                  sig="C10.R1|concurrent-senders-order")
+        elif body != ok_concat:
             n_ok = len(ok_concat)
             kind = "truncated" if ok_concat.startswith(body) else "duplicated-or-extra" if body.startswith(ok_concat) \
                 else "corrupted"
             sim.violation("C10.R1", f"sends reported successful carried {n_ok} bytes, the peer read {len(body)} "
                           f"({kind}); socket buffer {plan['buf']}, sizes {[n for n, _ in plan['sends']]}",
                           sig=f"C10.R1|{kind}")
-        if not all(ok for _b, ok in results) and done:
+        if not all(r[1] for r in results) and done:
             sim.violation("C10.R2", "a send on a healthy, draining connection reported failure", sig="C10.R2|false-failure")
     classes = sorted({("gt" if n > plan["buf"] else "le") for n, _ in plan["sends"]})
     sim.abstract = (plan["buf"], classes, len(plan["sends"]), plan["pacing"], path, plan["reset_after"] is not None,
